@@ -29,10 +29,10 @@ type c14Case struct {
 	// header stage
 	Truncate int `json:"truncate_at,omitempty"` // -1: complete header
 	// stream stage: arrangement of frames (F) and markers (C), segmentation
-	Items string `json:"items,omitempty"`
+	Items string       `json:"items,omitempty"`
 	S0    *e2eSettings `json:"first_connection_settings,omitempty"` // reconnect stage
-	Cuts  []int  `json:"cuts,omitempty"`
-	One   bool   `json:"one_byte_reads,omitempty"`
+	Cuts  []int        `json:"cuts,omitempty"`
+	One   bool         `json:"one_byte_reads,omitempty"`
 }
 
 var c14Sentinel = []byte{0xA5, 0x5A, 0xC3, 0x3C, 0x0A, 0x0A, 0x20, 0x0A}
